@@ -699,27 +699,20 @@ func GetVariantsPair(ref, query []byte, refID, queryID string, idx int, cdsregio
 		return variants[i].Position < variants[j].Position || (variants[i].Position == variants[j].Position && variants[i].Changetype < variants[j].Changetype)
 	})
 
-	// there might be dups if there was a snp in the region of a join()
+	// there might be dups if there was a snp in the region of a join(). They are not necessarily next to each
+	// other after the sort: a record of another feature at the same position can sit between them
 	finalVariants := make([]Variant, 0)
-	previousVariant := Variant{}
-	for i, v := range variants {
-		if i == 0 {
-			// don't want deletions that abut the start of the sequence
-			if v.Changetype == "del" && v.Position == 0 {
-				continue
-			}
-			finalVariants = append(finalVariants, v)
-			previousVariant = v
-			continue
-		}
+	seen := make(map[Variant]bool)
+	for _, v := range variants {
+		// don't want deletions that abut the start of the sequence
 		if v.Changetype == "del" && v.Position == 0 {
 			continue
 		}
-		if v == previousVariant {
+		if seen[v] {
 			continue
 		}
+		seen[v] = true
 		finalVariants = append(finalVariants, v)
-		previousVariant = v
 	}
 
 	// and we're done
